@@ -258,4 +258,7 @@ def run(cx, tier='quick'):
     rep.floor('SHAPE+FLAGS', 10)
     rep.assumptions += ['from_raw_parts(p as *const u8, size_of::<Self>()) views exactly the bytes of the value', 'padding / uninitialised bytes are the documented reason for `unsafe`']
     rep.not_decided += ['contents of padding bytes']
+    from .c13 import include_own_parsers as _iop
+    from ..facts import Facts as _Fp
+    _iop(cx, _Fp(cx), rep, ['::debug::', '::partial_eq::', '::hash::', '::clone::', '::default::'])
     return rep
